@@ -835,3 +835,13 @@ package server
 //@ trusted
 //@ received Ch() handledby Send
 //@ modifies *
+
+// C18: a client the dispatcher gives up on (its update channel is full) is cut off visibly: its
+// channel is closed before it is taken out of the subscriber table, so its stream ends and the
+// client reconnects instead of silently staying on a stale shard map. Structural clause; the body
+// (a select with default over the subscribers' channels) is otherwise trusted.
+//@ func shardAssignmentDispatcher.updateShardAssignment(s, assignments) (err)
+//@ property C18
+//@ trusted
+//@ precededby delete close
+//@ modifies *
